@@ -91,7 +91,7 @@ func cmdRun(args []string) int {
 		"asserts": rep.Asserts, "asserts_by_solver": rep.AssertsSym, "unknowns": rep.Unknowns, "covers": rep.Covers,
 		"unsupported": rep.Unsupported, "bounds": rep.Bounds, "panics": rep.Panics, "solver": rep.Solver, "wall": rep.Wall.String(),
 		"violations": rep.Violations, "truncated": rep.Truncated, "nfuncs": len(rep.Funcs), "stubs": top(rep.Stubs, 30),
-		"init_problems": rep.InitProblems, "samples": rep.Samples,
+		"init_problems": rep.InitProblems, "samples": rep.Samples, "fork_sites": top(rep.ForkSites, 25),
 	}
 	if *verbose {
 		out["funcs"] = top(rep.Funcs, 400)
